@@ -15,12 +15,17 @@
 //
 // script : ops joined by `,` : maint:<3 bits> maint_nochange sync:<3 bits> recover:<bit> is_maint join
 //          create find ctx set_handler        (bits = outcome of the scheduled dummy tasks, in order)
+//          maintq:<3 bits> (start_maintenance(False), change detected)  maint_noinst (installation_update fails)
+//          run_task:<bit> run_unknown deploy_ws:<4 bits> deploy_schema:<bit> deploy_config:<bit> prebuild:<bit>
+//          (Deployer::RunTask on the client thread; bits = outcomes)   start:<mode bit> (Deployer::StartMaintenance() /
+//          StartWork(false) directly)   destroy cleanup_all cleanup_stale   finalize initialize   clear_handler
+//          tick:<0|1|2> (1 s / Session::kLifeSpan / kLifeSpan + 1 s pass on the virtual clock)
 // sched  : string over {c,w}, `-` = empty.  Policy (identical to RimeModel.C15.runSchedule): take the named
 //          thread if it is enabled, else the other one, else stop; afterwards client first, else worker.
 // The API functions are the real ones (RimeStartMaintenance, RimeSyncUserData, RimeIsMaintenancing,
 // RimeJoinMaintenanceThread, RimeCreateSession, RimeFindSession, RimeGetContext, RimeSetNotificationHandler);
 // the deployment tasks they create by name are replaced in the registry by logging dummies.  `recover`
-// performs the three deployer calls of UserDictionary::Load's recovery path (user_dictionary.cc) with a dummy.
+// calls the real UserDictionary::Load (user_dictionary.cc) on a recoverable db that does not open.
 #include "hcommon.h"
 #include <atomic>
 #include <chrono>
@@ -33,6 +38,8 @@
 #include <thread>
 #include <unistd.h>
 #include <rime/deployer.h>
+#include <rime/dict/db.h>
+#include <rime/dict/user_dictionary.h>
 #include <rime/registry.h>
 #include <rime/service.h>
 #if defined(__has_include)
@@ -47,6 +54,14 @@
 
 using namespace vh;
 using Clock = std::chrono::steady_clock;
+
+// the clock Session::Activate and Service::CleanupStaleSessions read (time(NULL)) is virtual: it only moves by `tick` ops
+static std::atomic<long> g_virtual_now{1700000000};
+extern "C" time_t time(time_t* t) {
+  time_t v = (time_t)g_virtual_now.load();
+  if (t) *t = v;
+  return v;
+}
 
 enum Role { CONTROLLER = 0, CLIENT = 1, WORKER = 2 };
 // any thread the harness did not create is a librime work thread
@@ -128,7 +143,31 @@ struct DummyComponent : rime::DeploymentTask::Component {
 
 static const char* kTaskNames[] = {"clean_old_log_files", "installation_update", "detect_modifications",
                                    "workspace_update",    "user_dict_upgrade",   "cleanup_trash",
-                                   "backup_config_files", "user_dict_sync"};
+                                   "backup_config_files", "user_dict_sync",      "schema_update",
+                                   "config_file_update",  "prebuild_all_schemas", "userdb_recovery_task"};
+
+// a managed (Recoverable) user db that never opens: UserDictionary::Load takes its recovery path through the deployer
+struct BrokenDb : rime::Db, rime::Recoverable {
+  BrokenDb() : rime::Db(rime::path("c15_broken.userdb"), "c15_broken") {}
+  bool Open() override { return false; }
+  bool OpenReadOnly() override { return false; }
+  bool Close() override { return true; }
+  bool Backup(const rime::path&) override { return false; }
+  bool Restore(const rime::path&) override { return false; }
+  bool MetaFetch(const std::string&, std::string*) override { return false; }
+  bool MetaUpdate(const std::string&, const std::string&) override { return false; }
+  rime::an<rime::DbAccessor> QueryMetadata() override { return nullptr; }
+  rime::an<rime::DbAccessor> QueryAll() override { return nullptr; }
+  rime::an<rime::DbAccessor> Query(const std::string&) override { return nullptr; }
+  bool Fetch(const std::string&, std::string*) override { return false; }
+  bool Update(const std::string&, const std::string&) override { return false; }
+  bool Erase(const std::string&) override { return false; }
+  bool Recover() override { return false; }
+};
+
+static void register_dummies_impl() {
+  for (auto n : kTaskNames) rime::Registry::instance().Register(n, new DummyComponent);
+}
 
 // ---------------------------------------------------------------- notification handler
 // Every handler the client installs has a context object of its own.  The handler writes to it (plain memory); once
@@ -146,11 +185,42 @@ static void on_message(void* p, RimeSessionId, const char* type, const char* val
   }
   if (std::strcmp(type, "deploy") == 0) log_ev(std::string("note:") + value);
 }
+static bool g_handler_installed = true;       // client thread only
 static void install_fresh_handler(RimeApi* api) {
   HandlerCtx* fresh = new HandlerCtx;    // never freed: a context must not be confused with a recycled one
   api->set_notification_handler(&on_message, fresh);
   if (g_handler_ctx) { g_handler_ctx->taken_back = g_handler_ctx->notes; g_handler_ctx->notes = -1; }
   g_handler_ctx = fresh;
+  g_handler_installed = true;
+}
+// RimeSetNotificationHandler(NULL, ...) = Service::ClearNotificationHandler(): once it has returned no delivery may
+// still be running on the removed handler, so the client takes its context back here too
+static void remove_handler(RimeApi* api) {
+  api->set_notification_handler(nullptr, nullptr);
+  if (g_handler_ctx) { g_handler_ctx->taken_back = g_handler_ctx->notes; g_handler_ctx->notes = -1; }
+  g_handler_ctx = nullptr;
+  g_handler_installed = false;
+}
+
+// ---------------------------------------------------------------- service life cycle (finalize / initialize)
+static std::string g_dir, g_logdir;
+static bool g_started = true;                 // client thread only: Service::started_ as the harness left it
+static void fill_traits(RimeTraits* t) {
+  t->shared_data_dir = g_dir.c_str();
+  t->user_data_dir = g_dir.c_str();
+  t->distribution_name = "verif";
+  t->distribution_code_name = "verif";
+  t->distribution_version = "0";
+  t->app_name = "rime.verif";
+  t->min_log_level = 3;
+  t->log_dir = g_logdir.c_str();
+}
+// load the deployer modules (RimeStartMaintenance would), then put the dummies over the real tasks
+static void reload_dummies() {
+  RIME_STRUCT(RimeTraits, traits);
+  fill_traits(&traits);
+  api->deployer_initialize(&traits);
+  register_dummies_impl();
 }
 
 // ---------------------------------------------------------------- the controlled scheduler
@@ -166,6 +236,17 @@ struct Sched {
 };
 static Sched S;
 static int g_guard_hits = 0;      // service.create_session / service.get_session hits of the client thread
+// ground truth the harness keeps by itself (not asked from the library): was the live work thread launched by a
+// maintenance call, and how many session objects existed when the current API call launched its thread
+static bool g_cur_op_maint = false;            // client thread: the call in progress passes maintenance_mode = true
+static std::atomic<bool> g_worker_maint{false};
+static int g_alive_at_launch = -1;             // client thread
+static std::vector<std::weak_ptr<rime::Session>> g_weak;   // client thread: every session object created in this case
+static int alive_sessions() {
+  int n = 0;
+  for (auto& w : g_weak) n += w.expired() ? 0 : 1;
+  return n;
+}
 
 static bool parks(int role, const char* p) {
   if (role == WORKER)
@@ -206,6 +287,11 @@ static void yield_hook(const char* point) {
     log_ev("sched:" + std::to_string(g_last_created) + ":" + std::to_string(g_last_created_ok));
   // where the worker stands when StartWork makes its "already working?" test (names the window of a lost task)
   if (role == CLIENT && !std::strcmp(point, "start_work.enter")) log_mon("sw:" + other);
+  // released from start_work.launch: the next thing the client does is std::async
+  if (role == CLIENT && !std::strcmp(point, "start_work.launch")) {
+    g_worker_maint = g_cur_op_maint;
+    g_alive_at_launch = alive_sessions();
+  }
 }
 
 static void task_log_hook(const void*, int phase, int) {
@@ -226,11 +312,16 @@ static bool parse_script(const std::string& s, std::vector<Op>* out) {
     op.kind = tok.substr(0, c);
     if (c != std::string::npos)
       for (char ch : tok.substr(c + 1)) {
-        if (ch != '0' && ch != '1') return false;
+        if (ch != '0' && ch != '1' && !(ch == '2' && op.kind == "tick")) return false;
         op.bits.push_back(ch - '0');
       }
-    size_t want = (op.kind == "maint" || op.kind == "sync") ? 3 : op.kind == "recover" ? 1 : 0;
-    static const char* kinds[] = {"maint", "maint_nochange", "sync", "recover", "is_maint", "join", "create", "find", "ctx", "set_handler"};
+    size_t want = (op.kind == "maint" || op.kind == "sync" || op.kind == "maintq") ? 3 : op.kind == "deploy_ws" ? 4
+                  : (op.kind == "recover" || op.kind == "run_task" || op.kind == "deploy_schema" || op.kind == "deploy_config" ||
+                     op.kind == "prebuild" || op.kind == "start" || op.kind == "tick") ? 1 : 0;
+    static const char* kinds[] = {"maint", "maint_nochange", "sync", "recover", "is_maint", "join", "create", "find", "ctx", "set_handler",
+                                  "maintq", "maint_noinst", "run_task", "run_unknown", "deploy_ws", "deploy_schema", "deploy_config",
+                                  "prebuild", "start", "destroy", "cleanup_all", "cleanup_stale", "finalize", "initialize",
+                                  "clear_handler", "tick"};
     bool known = false;
     for (auto k : kinds) known |= op.kind == k;
     if (!known || op.bits.size() != want || (want == 0 && c != std::string::npos)) return false;
@@ -239,24 +330,118 @@ static bool parse_script(const std::string& s, std::vector<Op>* out) {
   return !out->empty();
 }
 
-static RimeSessionId g_last_session = 0;
+static RimeSessionId g_last_session = 0;       // most recently created session that is still alive (top of g_sessions)
+static std::vector<RimeSessionId> g_sessions;  // live sessions, oldest first (client thread only)
+static std::vector<long> g_active;             // virtual time of the last accepted use of each (the harness's own bookkeeping:
+                                               // it only decides WHICH id find/ctx/destroy address next; the answers are librime's)
+static void sessions_dropped() { g_sessions.clear(); g_active.clear(); g_last_session = 0; }
+static int plan_of(int bit) { return bit ? -1 : -2; }
 static vh::Rng* g_client_rng = nullptr;   // stress mode: random gaps between calls
 
 static void ret(const std::string& k, long v) { log_ev("ret:" + k + ":" + std::to_string(v)); }
 
+static bool must_refuse() { return rime::Service::instance().deployer().IsMaintenanceMode(); }
+
 static void session_mon(const std::string& k, bool maint_before, bool accepted, int guard_hits) {
-  // monitor tokens: E (refused iff maintenance mode was on when the call was issued), guard coverage.
+  // monitor tokens: E (refused iff maintenance mode was on / the service was stopped when the call was issued), guard coverage.
   // Maintenance mode is sampled before AND after the call: only the client starts workers, so when both samples
   // agree that was the mode during the call (free-running, a worker may finish in between: then they differ).
-  bool maint_after = rime::Service::instance().deployer().IsMaintenanceMode();
+  bool maint_after = must_refuse();
+  // steered runs: is a work thread that a maintenance call launched still before its last queue check?  (the worker is
+  // parked while the client runs, so its position is stable); free-running: unknown
+  std::string truth = "-";
+  {
+    std::lock_guard<std::mutex> g(S.m);
+    if (S.active)
+      truth = (S.worker_live && g_worker_maint.load() && !(S.parked[WORKER] && !std::strcmp(S.parked[WORKER], "run.exit"))) ? "1" : "0";
+  }
+  // last field: the service was started (between RimeFinalize and RimeInitialize the property says nothing)
   log_mon("m:" + k + ":" + std::to_string(maint_before) + ":" + std::to_string(accepted) + ":" + std::to_string(guard_hits) +
-          ":" + std::to_string(maint_after));
+          ":" + std::to_string(maint_after) + ":" + std::to_string(g_started ? 1 : 0) + ":" + truth);
 }
 
 static void do_op(const Op& op) {
   rime::Deployer& d = rime::Service::instance().deployer();
   const std::string& k = op.kind;
-  if (k == "maint") {
+  g_plan.clear();
+  g_cur_op_maint = k == "maint" || k == "sync" || k == "maintq" || (k == "start" && op.bits[0] == 1);
+  g_alive_at_launch = -1;
+  struct LaunchMon {   // after a call that launched a work thread: did the call itself touch the sessions after the launch?
+    const std::string& k;
+    ~LaunchMon() {
+      if (g_alive_at_launch >= 0)
+        log_mon("sd:" + k + ":" + std::to_string(g_alive_at_launch) + ":" + std::to_string(alive_sessions()));
+    }
+  } launch_mon{k};
+  if (k == "maintq") {
+    // clean_old_log_files, installation_update, detect_modifications (reports a change), then the three scheduled tasks
+    g_plan = {-1, -1, -1, op.bits[0], op.bits[1], op.bits[2]};
+    ret(k, api->start_maintenance(False));
+  } else if (k == "maint_noinst") {
+    g_plan = {-1, -2};
+    ret(k, api->start_maintenance(True));
+  } else if (k == "run_task") {
+    g_plan = {plan_of(op.bits[0])};
+    ret(k, api->run_task("cleanup_trash"));
+  } else if (k == "run_unknown") {
+    ret(k, api->run_task("c15_no_such_task"));
+  } else if (k == "deploy_ws") {
+    g_plan = {plan_of(op.bits[0]), plan_of(op.bits[1]), plan_of(op.bits[2]), plan_of(op.bits[3])};
+    ret(k, api->deploy());
+  } else if (k == "deploy_schema") {
+    g_plan = {plan_of(op.bits[0])};
+    ret(k, api->deploy_schema("c15.schema.yaml"));
+  } else if (k == "deploy_config") {
+    g_plan = {plan_of(op.bits[0])};
+    ret(k, api->deploy_config_file("c15.yaml", "config_version"));
+  } else if (k == "prebuild") {
+    g_plan = {plan_of(op.bits[0])};
+    ret(k, api->prebuild());
+  } else if (k == "start") {
+    ret(k, (op.bits[0] ? d.StartMaintenance() : d.StartWork(false)) ? 1 : 0);
+  } else if (k == "destroy") {
+    if (g_sessions.empty()) {
+      ret(k, api->destroy_session(1) ? 1 : 0);
+    } else {
+      Bool r = api->destroy_session(g_sessions.back());
+      g_sessions.pop_back();
+      g_active.pop_back();
+      g_last_session = g_sessions.empty() ? 0 : g_sessions.back();
+      ret(k, r ? 1 : 0);
+    }
+  } else if (k == "cleanup_all") {
+    api->cleanup_all_sessions();
+    sessions_dropped();
+    ret(k, 2);
+  } else if (k == "cleanup_stale") {
+    api->cleanup_stale_sessions();
+    for (size_t i = g_sessions.size(); i-- > 0;)
+      if (g_active[i] < g_virtual_now.load() - rime::Session::kLifeSpan) {
+        g_sessions.erase(g_sessions.begin() + i);
+        g_active.erase(g_active.begin() + i);
+      }
+    g_last_session = g_sessions.empty() ? 0 : g_sessions.back();
+    ret(k, 2);
+  } else if (k == "tick") {
+    g_virtual_now += op.bits[0] == 0 ? 1 : op.bits[0] == 1 ? rime::Session::kLifeSpan : rime::Session::kLifeSpan + 1;
+    ret(k, 2);
+  } else if (k == "finalize") {
+    api->finalize();                 // joins the work thread, stops the service, clears registry and modules
+    g_started = false;
+    sessions_dropped();
+    reload_dummies();                // a later start_maintenance must find the dummies, not the real tasks
+    ret(k, 2);
+  } else if (k == "initialize") {
+    RIME_STRUCT(RimeTraits, traits);
+    fill_traits(&traits);
+    api->initialize(&traits);
+    g_started = true;
+    reload_dummies();
+    ret(k, 2);
+  } else if (k == "clear_handler") {
+    remove_handler(api);
+    ret(k, 2);
+  } else if (k == "maint") {
     g_plan = {-1, -1, op.bits[0], op.bits[1], op.bits[2]};
     ret(k, api->start_maintenance(True));
   } else if (k == "maint_nochange") {
@@ -264,43 +449,47 @@ static void do_op(const Op& op) {
     ret(k, api->start_maintenance(False));
   } else if (k == "sync") {
     g_plan = {op.bits[0], op.bits[1], op.bits[2]};
-    g_last_session = 0;  // RimeSyncUserData starts with CleanupAllSessions()
+    sessions_dropped();  // RimeSyncUserData starts with CleanupAllSessions()
     ret(k, api->sync_user_data());
   } else if (k == "recover") {
-    // user_dictionary.cc: if (task && Is<Recoverable>(db_) && !deployer.IsWorking()) {
-    //   deployer.ScheduleTask(an<DeploymentTask>(task->Create(db_)));  deployer.StartWork(); }
-    if (!d.IsWorking()) {
-      g_last_created = g_next_id++;
-      g_last_created_ok = op.bits[0];
-      d.ScheduleTask(rime::an<rime::DeploymentTask>(new DummyTask(g_last_created, op.bits[0])));
-      ret(k, d.StartWork() ? 1 : 0);
-    } else {
-      ret(k, 3);
-    }
+    // the real UserDictionary::Load on a recoverable db that does not open (user_dictionary.cc):
+    //   if (task && Is<Recoverable>(db_) && !deployer.IsWorking()) {
+    //     deployer.ScheduleTask(an<DeploymentTask>(task->Create(db_)));  deployer.StartWork(); }   return false;
+    // "userdb_recovery_task" creates the planned dummy (only when the path is taken)
+    g_plan = {op.bits[0]};
+    rime::UserDictionary ud("c15_broken", rime::New<BrokenDb>());
+    ret(k, ud.Load() ? 1 : 0);
   } else if (k == "is_maint") {
     ret(k, api->is_maintenance_mode());
   } else if (k == "join") {
     api->join_maintenance_thread();
     ret(k, 2);
   } else if (k == "create") {
-    bool mb = d.IsMaintenanceMode();
+    bool mb = must_refuse();
     g_guard_hits = 0;
     RimeSessionId id = api->create_session();
-    if (id) g_last_session = id;
+    if (id) {
+      g_last_session = id; g_sessions.push_back(id); g_active.push_back(g_virtual_now.load());
+      int hits = g_guard_hits;
+      g_weak.push_back(rime::Service::instance().GetSession(id));   // only to learn when the object dies
+      g_guard_hits = hits;
+    }
     session_mon(k, mb, id != 0, g_guard_hits);
     ret(k, id ? 1 : 0);
   } else if (k == "find") {
-    bool mb = d.IsMaintenanceMode();
+    bool mb = must_refuse();
     g_guard_hits = 0;
     Bool r = api->find_session(g_last_session ? g_last_session : 1);
+    if (r && g_last_session) g_active.back() = g_virtual_now.load();
     if (g_last_session) session_mon(k, mb, r != 0, g_guard_hits);
     ret(k, r ? 1 : 0);
   } else if (k == "ctx") {
-    bool mb = d.IsMaintenanceMode();
+    bool mb = must_refuse();
     g_guard_hits = 0;
     RIME_STRUCT(RimeContext, ctx);
     Bool r = api->get_context(g_last_session ? g_last_session : 1, &ctx);
     if (r) api->free_context(&ctx);
+    if (r && g_last_session) g_active.back() = g_virtual_now.load();
     if (g_last_session) session_mon(k, mb, r != 0, g_guard_hits);
     ret(k, r ? 1 : 0);
   } else if (k == "set_handler") {
@@ -331,7 +520,7 @@ static void client_main(std::vector<Op> script, bool controlled) {
 static bool enabled(int role) {  // S.m held
   if (role == CLIENT)
     return !S.client_done && S.parked[CLIENT] &&
-           !(!std::strcmp(S.parked[CLIENT], "boundary") && S.next_op == "join" && S.worker_live) &&
+           !(!std::strcmp(S.parked[CLIENT], "boundary") && (S.next_op == "join" || S.next_op == "finalize") && S.worker_live) &&
            !(!std::strcmp(S.parked[CLIENT], "start_work.join") && S.worker_live);  // JoinWorkThread() would block
   return S.worker_live && S.parked[WORKER];
 }
@@ -398,12 +587,20 @@ static std::string reset_after_case(std::thread& client) {
   std::string left = left_ids(keep);
   d.StartWork(false);  // not working, queue empty: only resets maintenance_mode_ to false
   rime::Service::instance().CleanupAllSessions();
+  if (!g_started) {
+    RIME_STRUCT(RimeTraits, traits);
+    fill_traits(&traits);
+    api->initialize(&traits);
+    g_started = true;
+    reload_dummies();
+  }
+  if (!g_handler_installed) install_fresh_handler(api);
   return left;
 }
 
 static void fresh_case() {
   L.clear();
-  g_next_id = 0; g_plan.clear(); g_last_created = -1; g_last_session = 0;
+  g_next_id = 0; g_plan.clear(); g_last_created = -1; sessions_dropped(); g_weak.clear(); g_alive_at_launch = -1;
   g_lib_task_begin = 0; g_lib_task_end = 0;
   S.parked[CLIENT] = S.parked[WORKER] = nullptr;
   S.turn = 0; S.client_done = false; S.worker_live = false; S.next_op.clear();
@@ -540,14 +737,10 @@ int main(int argc, char** argv) {
   if (const char* w = std::getenv("C15_WATCHDOG_MS")) g_watchdog_ms = std::atoi(w);
   std::string dir = argv[2];
   std::filesystem::create_directories(dir);
+  g_dir = dir;
+  g_logdir = dir + "/log";
   api = vh::start(dir, dir, false);
-  {  // load the deployer modules first (RimeStartMaintenance would), then put the dummies over the real tasks
-    RIME_STRUCT(RimeTraits, traits);
-    traits.shared_data_dir = dir.c_str();
-    traits.user_data_dir = dir.c_str();
-    api->deployer_initialize(&traits);
-  }
-  for (auto n : kTaskNames) rime::Registry::instance().Register(n, new DummyComponent);
+  reload_dummies();
   api->set_notification_handler(&on_message, nullptr);
 #if C15_HAVE_HOOKS
   if (mode == "sched") {  // the stress runs stay free of harness synchronisation (ThreadSanitizer)
